@@ -84,6 +84,9 @@ def run(tier, replay=None):
         for f, key in (("a.s", "a"), ("b.s", "b"), ("c.s", "c")):
             files[f] = body[f] + "".join(f'.include "{t}"\n' for t in g[key]) + "    nop\n"
         gfiles.append(files)
+        if len(gfiles) % 2 == 0:      # every other graph spells its includes ./name
+            files = {f: t.replace('.include "', '.include "./') for f, t in files.items()}
+            gfiles[-1] = files
         add("include-graph", mode="observe", files=files, base="a.s", want=["lints", "items"])
         add("include-graph-no-cycle-detection", mode="observe", files=files, base="a.s", want=[], no_cycle_detection=True)
     nflow, nval, nmut = (150, 80, 25) if tier == "quick" else (4000, 2000, 400)
@@ -166,7 +169,8 @@ def run(tier, replay=None):
         cli_inputs.append(("string-wide", {"main.s": t}))
     for wch in sorted(WIDE):
         for t in (f'.ascii "{wch}{wch}" 5\n', f'{wch}{wch}li a0\n', f'li t0, 1 # {wch}\n', f"li a0, '{wch}' 7\n", f'\t{wch} addi t0, t0\n',
-                  f'L{wch}: j L{wch}\n', f'# {wch}\nmain:\n    lw a0, {wch}(sp)\n'):
+                  f'L{wch}: j L{wch}\n', f'# {wch}\nmain:\n    lw a0, {wch}(sp)\n',
+                  f'{wch * 4}nop\n', f'{wch * 4}li t0, 1\n', f'main:\n{wch * 3}\taddi t0, t0\n'):
             cli_inputs.append(("wide-line", {"main.s": t}))
     # the long runs again through the binary (its own stack size and frame sizes)
     if not replay:
